@@ -445,16 +445,18 @@ def io_desc(file_type, name="K"):
     }
 
 
+IO_QUICK_READERS = ("pshape", "pidx", "pvals", "pname", "pel", "ploc", "paln")
+
+
 def io_family(rotation=None):
-    """`rotation`: None - every alternative of every shape; n - one alternative per shape (the n-th, modulo).
+    """`rotation`: None - every alternative of every shape, every reader, one model per file type (thorough tier);
+    n - one alternative per shape (the n-th, modulo), the readers IO_QUICK_READERS, both file types in ONE model.
     -> [(label, desc)]: PandasData references of every small shape (PD_SHAPES x alternatives x csv / excel) at model
     level, in a space, overridden in a derived space, copied into an ItemSpace and read in a static child of it -
-    each read by every pattern that exposes type and shape.  One model per file type."""
-    res = []
-    for ft in ("csv", "excel"):
-        kinds = [k for k in KINDS if k.io == ft]
+    each read by the patterns that expose type and shape."""
+    def big_space(name, ft):
         refs, cells = [], []
-        for k in kinds:
+        for k in [k for k in KINDS if k.io == ft]:
             shape = k.id.rsplit("_", 1)[1]
             for alt in range(len(k.makers)):
                 if k.known and alt in (k.known_alts or ()):
@@ -466,29 +468,40 @@ def io_family(rotation=None):
                 for i, (sfx, src) in enumerate(readers(k, nm)):
                     if sfx in ("id", "ty", "mro", "isi", "exact", "box", "same"):
                         continue
+                    if rotation is not None and sfx not in IO_QUICK_READERS:
+                        continue
                     cells.append(_cells("rd_%s_%s" % (nm, sfx), src, cached=(i + alt) % 3 != 2))
+        return {"name": name, "bases": [], "formula": None, "refs": refs, "cells": cells, "spaces": []}
+
+    def small_part(ft, other):
         s1 = BY_ID["pdio_%s_s1" % ft]
         f1 = BY_ID["pdio_%s_f1" % ft]
-        s2 = BY_ID["pdio_%s_s2" % ft]
+        s2 = BY_ID["pdio_%s_s2" % other]
         small_refs = [{"name": "v", "val": {"kind": s1.id, "alt": 0}, "mode": "auto"},
                       {"name": "w", "val": {"kind": f1.id, "alt": 2}, "mode": "auto"}]
         small_cells = [_cells("rd_%s_%s" % (nm, sfx), src) for nm, k in (("v", s1), ("w", f1), ("gs", s1))
                        for sfx, src in readers(k, nm) if sfx in ("pshape", "pidx", "pvals", "ploc", "paln")]
-        desc = {
-            "name": "IO", "profile": "valueio:family:" + ft,
-            "grefs": [{"name": "gs", "val": {"kind": s1.id, "alt": 1}, "mode": "auto"}],
-            "spaces": [
-                {"name": "A", "bases": [], "formula": None, "refs": refs, "cells": cells, "spaces": []},
-                {"name": "S", "bases": [], "formula": None, "refs": small_refs, "cells": small_cells, "spaces": []},
-                {"name": "B", "bases": ["S"], "formula": None,
-                 "refs": [{"name": "v", "val": {"kind": s2.id, "alt": 0}, "mode": "auto"}], "cells": [], "spaces": []},
-                {"name": "P", "bases": ["S"], "formula": [["x", None]], "refs": [],
-                 "cells": [_cells("withx", "lambda: (type(v).__name__, v.shape, len(v), x, type(gs).__name__, gs.shape)")],
-                 "spaces": [{"name": "In", "bases": [], "formula": None, "refs": [],
-                             "cells": [_cells("deep", "lambda: (type(gs).__name__, gs.shape, gs.index.tolist(), x)")],
-                             "spaces": []}]},
-            ],
-        }
+        return [
+            {"name": "S", "bases": [], "formula": None, "refs": small_refs, "cells": small_cells, "spaces": []},
+            {"name": "B", "bases": ["S"], "formula": None,
+             "refs": [{"name": "v", "val": {"kind": s2.id, "alt": 0}, "mode": "auto"}], "cells": [], "spaces": []},
+            {"name": "P", "bases": ["S"], "formula": [["x", None]], "refs": [],
+             "cells": [_cells("withx", "lambda: (type(v).__name__, v.shape, len(v), x, type(gs).__name__, gs.shape)")],
+             "spaces": [{"name": "In", "bases": [], "formula": None, "refs": [],
+                         "cells": [_cells("deep", "lambda: (type(gs).__name__, gs.shape, gs.index.tolist(), x)")],
+                         "spaces": []}]}]
+    fts = ("csv", "excel")
+    if rotation is not None:
+        ft, other = fts[rotation % 2], fts[(rotation + 1) % 2]
+        desc = {"name": "IO", "profile": "valueio:family",
+                "grefs": [{"name": "gs", "val": {"kind": "pdio_%s_s1" % other, "alt": 1}, "mode": "auto"}],
+                "spaces": [big_space("A_csv", "csv"), big_space("A_xl", "excel")] + small_part(ft, other)}
+        return [("iofamily", desc)]
+    res = []
+    for ft, other in (fts, fts[::-1]):
+        desc = {"name": "IO", "profile": "valueio:family:" + ft,
+                "grefs": [{"name": "gs", "val": {"kind": "pdio_%s_s1" % ft, "alt": 1}, "mode": "auto"}],
+                "spaces": [big_space("A", ft)] + small_part(ft, other)}
         res.append(("iofamily:" + ft, desc))
     return res
 
@@ -504,9 +517,13 @@ def motif_family(io_rotation=None):
              ("float", "np_float64"), ("str", "np_str"), ("int", "np_int64"), ("none", "bool"),
              ("sub_int_repr", "intenum_std"), ("list_mixed", "dict_mixed"), ("np_array", "float_edge"),
              ("strenum", "str_quotes"), ("floatenum", "sub_int_state")]
-    for a, b in pairs:
+    for i, (a, b) in enumerate(pairs):
+        if io_rotation is not None and (i + io_rotation) % 2:
+            continue            # quick tier: every pair every second seed
         res.append(("pair:%s+%s" % (a, b), pair_desc(BY_ID[a], BY_ID[b])))
     for ft in ("csv", "excel"):
+        if io_rotation is not None and ft != ("csv", "excel")[io_rotation % 2]:
+            continue            # (the IO family below holds both file types on every run)
         res.append(("io:" + ft, io_desc(ft)))
     res.extend(io_family(io_rotation))
     return res
